@@ -707,31 +707,35 @@ func (self Node) Gets(keys []PathNode, opts *Options) error {
 	}
 
 	need := len(keys)
+	strKey := self.kt == proto.STRING
+	for _, id := range keys {
+		if t := id.Path.Type(); (strKey && t != PathStrKey) || (!strKey && t != PathIntKey) {
+			return errNode(meta.ErrUnsupportedType, fmt.Sprintf("path %#v does not fit a MAP node with %s key", id.Path, self.kt), nil)
+		}
+	}
 	for count := 0; it.HasNext() && count < need; {
+		// read one pair, then look for its key in the pathes: every call of NextStr/NextInt moves to the next pair
+		var keyStr string
+		var keyInt, s, e int
+		if strKey {
+			_, keyStr, s, e = it.NextStr(UseNativeSkipForGet)
+		} else {
+			_, keyInt, s, e = it.NextInt(UseNativeSkipForGet)
+		}
+		if it.Err != nil {
+			return errNode(meta.ErrRead, "", it.Err)
+		}
 		for j, id := range keys {
-			if id.Path.Type() == PathStrKey {
-				exp := id.Path.str()
-				_, key, s, e := it.NextStr(UseNativeSkipForGet)
-				if it.Err != nil {
-					return errNode(meta.ErrRead, "", it.Err)
+			if strKey {
+				if id.Path.Type() != PathStrKey || id.Path.str() != keyStr {
+					continue
 				}
-				if key == exp {
-					keys[j].Node = self.slice(s, e, et)
-					count += 1
-					break
-				}
-			} else if id.Path.Type() == PathIntKey {
-				exp := id.Path.int()
-				_, key, s, e := it.NextInt(UseNativeSkipForGet)
-				if it.Err != nil {
-					return errNode(meta.ErrRead, "", it.Err)
-				}
-				if key == exp {
-					keys[j].Node = self.slice(s, e, et)
-					count += 1
-					break
-				}
+			} else if id.Path.Type() != PathIntKey || id.Path.int() != keyInt {
+				continue
 			}
+			keys[j].Node = self.slice(s, e, et)
+			count += 1
+			break
 		}
 	}
 	return nil
